@@ -35,6 +35,11 @@ impl Session {
     }
 
     pub fn abort_transaction(&mut self) -> QueryRunnerResult<()> {
+        // Dropping a session always ends up here: a transaction that has already been
+        // committed or rolled back must not get a second terminal record in the log.
+        if !self.ctx.is_open() {
+            return Ok(());
+        }
         self.logger.log_abort()?;
         self.ctx.abort_transaction()?;
         self.logger.log_end()?;
